@@ -18,7 +18,7 @@ RULE = (
     'positions), random programs to depth 6/length 12; distinct = distinct (nesting signature of classes+argument kinds, exception position); '
     'non-trivial iff at least one publicly visible field changed inside the program (so a restore is observable)'
 )
-REQUIRED = ["enter_matches_model", "exit_matches_model", "end_equals_defaults", "inner_value_visible", "reentered_object_end_equals_defaults", "reentered_object_inner_value_visible"]
+REQUIRED = ["library_call_keeps_block_values", "enter_matches_model", "exit_matches_model", "end_equals_defaults", "inner_value_visible", "reentered_object_end_equals_defaults", "reentered_object_inner_value_visible"]
 ASSUMPTIONS = [
     "blocks are written `with cls(args):` (object constructed at entry); for ONE pre-constructed object entered while already active, the value visible inside the innermost entry and the defaults after the outermost exit are verdicts, the value visible between an inner exit and the outer exit is not (the object saves a single previous value)",
     "visible state = on()/value()/value(dtype)/num_probe_vectors() of every exported class, sampled after every enter/exit event",
@@ -210,6 +210,120 @@ def _init():
 
 
 # ---- program generation (descriptors only; JSON) ------------------------------------------------
+LIB_OPS = ["exact_predict", "hetero_predict", "svgp_predict_fantasy", "ciq_predict", "cylindrical_kernel", "lazy_kernel_ops"]
+
+
+def _lib_build(op):
+    """returns a zero-argument callable performing a library operation that enters settings blocks internally"""
+    import torch
+
+    import gpytorch
+
+    g = torch.Generator().manual_seed(5)
+    K, L = gpytorch.kernels, gpytorch.likelihoods
+    X = torch.randn(6, 2, generator=g, dtype=torch.double)
+    y = torch.randn(6, generator=g, dtype=torch.double)
+    xs = torch.randn(3, 2, generator=g, dtype=torch.double)
+
+    class GP(gpytorch.models.ExactGP):
+        def __init__(s, X_, y_, lik, kern):
+            super().__init__(X_, y_, lik)
+            s.mean_module, s.covar_module = gpytorch.means.ConstantMean(), kern
+
+        def forward(s, x):
+            return gpytorch.distributions.MultivariateNormal(s.mean_module(x), s.covar_module(x))
+
+    if op == "exact_predict":
+        m = GP(X, y, L.GaussianLikelihood(), K.ScaleKernel(K.RBFKernel())).double().eval()
+        return lambda: m.likelihood(m(xs)).variance
+    if op == "hetero_predict":
+        noise_model = GP(X, y.abs().log(), L.GaussianLikelihood(), K.RBFKernel()).double()
+        lik = L.gaussian_likelihood._GaussianLikelihoodBase(gpytorch.likelihoods.noise_models.HeteroskedasticNoise(noise_model))
+        m = GP(X, y, lik, K.ScaleKernel(K.MaternKernel())).double().eval()
+        return lambda: m.likelihood(m(xs), xs).variance
+    if op in ("svgp_predict_fantasy", "ciq_predict"):
+        V = gpytorch.variational
+        Z = X[:3].clone()
+
+        class VG(gpytorch.models.ApproximateGP):
+            def __init__(s):
+                if op == "ciq_predict":
+                    vs = V.CiqVariationalStrategy(s, Z, V.NaturalVariationalDistribution(3), learn_inducing_locations=True)
+                else:
+                    vs = V.VariationalStrategy(s, Z, V.CholeskyVariationalDistribution(3), learn_inducing_locations=True)
+                super().__init__(vs)
+                s.mean_module, s.covar_module = gpytorch.means.ConstantMean(), K.ScaleKernel(K.RBFKernel())
+
+            def forward(s, x):
+                return gpytorch.distributions.MultivariateNormal(s.mean_module(x), s.covar_module(x))
+
+        m = VG().double().eval()
+        m.likelihood = L.GaussianLikelihood().double()
+
+        def run():
+            out = m(xs).variance
+            if op == "svgp_predict_fantasy":
+                m.get_fantasy_model(xs[:2], y[:2])
+            return out
+
+        return run
+    if op == "cylindrical_kernel":
+        k = K.CylindricalKernel(3, K.MaternKernel()).double()
+        xb = X / X.norm(dim=-1, keepdim=True).clamp_min(1e-3) * 0.5
+        return lambda: (k(xb).to_dense(), k(xb, diag=True))
+    if op == "lazy_kernel_ops":
+        k = K.ScaleKernel(K.RBFKernel()).double()
+        return lambda: (k(X)[..., :3, 1:].to_dense(), k(X).diagonal(dim1=-1, dim2=-2), k(X, xs).transpose(-1, -2).to_dense(), k(X) @ y.unsqueeze(-1))
+    raise KeyError(op)
+
+
+def _library_call(case, ctx):
+    name = case["cls"]
+    c = _S["bycls"][name]
+    kw = _dec(_S["choices"][name][case["arg"]])
+    try:
+        obj = c(kw["value"]) if _S["kinds"][name] == "value" else c(**kw)
+    except Exception:
+        ctx.reject("settings constructor refused the argument")
+        return
+    op = None
+    raised = None
+    if case["when"] == "built_before_used_inside":
+        op = _lib_build(case["op"])
+    try:
+        with obj:
+            inside = snapshot()
+            try:
+                if op is None:
+                    op = _lib_build(case["op"])
+                if case["when"] != "built_inside_used_after":
+                    op()
+            except Exception as e:  # whatever the operation does under this setting, the settings stay the block's
+                raised = type(e).__name__
+            after = snapshot()
+            bad = [k for k in after if after[k] != inside[k]]
+            ctx.expect("library_call_keeps_block_values", not bad, f"{case['op']} inside `with {name}({_enc(kw)})` changed: " + "; ".join(f"{k}: {inside[k]!r} -> {after[k]!r}" for k in bad[:4]) + (f" (operation raised {raised})" if raised else ""),
+                       fields=bad, op=case["op"])
+    except Exception:
+        ctx.reject("settings block refused at entry")
+        return
+    end = snapshot()
+    bad = [k for k in end if end[k] != _S["defaults"][k]]
+    ctx.expect("end_equals_defaults", not bad, f"after `with {name}(...)` around {case['op']}: " + "; ".join(f"{k}={end[k]!r} default={_S['defaults'][k]!r}" for k in bad[:4]), fields=bad, owners=sorted({_owner(k) for k in bad}), op=case["op"])
+    if case["when"] == "built_inside_used_after" and op is not None:
+        try:
+            op()
+        except Exception as e:
+            raised = type(e).__name__
+        end = snapshot()
+        bad = [k for k in end if end[k] != _S["defaults"][k]]
+        ctx.expect("library_call_keeps_block_values", not bad, f"{case['op']} built inside `with {name}({_enc(kw)})` and used after the block changed: " + "; ".join(f"{k}={end[k]!r} default={_S['defaults'][k]!r}" for k in bad[:4]), fields=bad, op=case["op"])
+    if raised:
+        ctx.hit("info:library_operation_raised_under_setting")
+    ctx.cell(("library-call", case["op"], name, case["when"]), nontrivial=True)
+    _reset()
+
+
 def N(cls, ai, body=(), boom=None, catch=False):
     """node: with cls(choice ai): body...; boom = index in body before which Boom is raised (len(body) = at end);
     catch=True wraps this block in try/except Boom."""
@@ -268,6 +382,19 @@ def cases(tier, seed):
     for i in range(nrand):
         d = rnd.randint(2, 6)
         yield {"prog": rprog(d, rnd.randint(1, 4)), "gen": "random", "topcatch": True}
+    # 4b. a library operation inside the user's block (several library routines enter settings blocks of their own): the block's
+    #     values are still in force after the call, and the defaults are back after the block - also for objects constructed
+    #     inside a block and used after it
+    for op in LIB_OPS:
+        for n in names:
+            idxs = list(range(len(ch[n])))
+            if tier == "quick":
+                idxs = idxs[:2] if n not in ("detach_test_caches", "debug", "lazily_evaluate_kernels", "max_preconditioner_size", "cg_tolerance", "eval_cg_tolerance", "num_likelihood_samples") else idxs
+                if rnd.random() < 0.5 and len(idxs) == 2:
+                    idxs = idxs[:1]
+            for ai in idxs:
+                for when in ("built_before_used_inside", "inside", "built_inside_used_after"):
+                    yield {"gen": "library-call", "op": op, "cls": n, "arg": ai, "prog": [N(n, ai)], "when": when}
     # 5. informational: re-entered, pre-constructed context objects (outside the quantifier)
     for n in names:
         yield {"prog": [N(n, 0)], "gen": "reenter-info"}
@@ -458,6 +585,8 @@ def run_case(case, ctx):
     _S["keep"] = []
     _S["changed"] = False
     ctx.expect("start_equals_defaults", snapshot() == _S["defaults"], "harness reset failed")
+    if case["gen"] == "library-call":
+        return _library_call(case, ctx)
     if case["gen"] == "reenter-info":
         name = case["prog"][0]["cls"]
         c = _S["bycls"][name]
